@@ -1078,7 +1078,7 @@ static int sp_dgemv(char tA, int m, int n, number alpha, void *a, int oA,
 
   scal[A->id]((tA == 'N' ? &m : &n), &beta, Y, &iy);
 
-  if (!m) return 0;
+  if (!m || !n) return 0;
   int i, j, k, oi = oA % A->nrows, oj = oA / A->nrows;
 
   if (tA == 'N') {
@@ -1116,7 +1116,7 @@ static int sp_zgemv(char tA, int m, int n, number alpha, void *a, int oA,
 
   scal[A->id]((tA == 'N' ? &m : &n), &beta, Y, &iy);
 
-  if (!m) return 0;
+  if (!m || !n) return 0;
   int i, j, k, oi = oA % A->nrows, oj = oA / A->nrows;
 
   if (tA == 'N') {
